@@ -71,6 +71,9 @@ func discharge(obls []*Oblig, workers int) {
 				if o.Budget > 0 {
 					q, t = o.Budget, o.Budget
 				}
+				if o.Full {
+					q, t = 5, 15
+				}
 				if o.Cover && !o.Soft {
 					// vacuity guards get the full budget even when the claimed obligations are capped
 					if q < 5 {
@@ -78,6 +81,23 @@ func discharge(obls []*Oblig, workers int) {
 					}
 					if t < 15 {
 						t = 15
+					}
+				}
+				if o.Kind == "variant.auto" || o.Kind == "variant" {
+					// a loop variant usually follows from a few facts that dominate the back edge: first try with
+					// the atomic conjuncts of the path condition only (sound: a weaker hypothesis)
+					if os.Getenv("GOVC_DEBUG_WEAK") != "" {
+						fmt.Fprintf(os.Stderr, "WEAK %s: %s\n", o.Name, clipS(weakPC(o.PC).String(), 1500))
+						fmt.Fprintf(os.Stderr, "PC op=%s nargs=%d\n", o.PC.Op, len(o.PC.Args))
+						for _, a := range o.PC.Args {
+							fmt.Fprintf(os.Stderr, "   arg op=%s nargs=%d %s\n", a.Op, len(a.Args), clipS(a.String(), 300))
+						}
+						os.WriteFile("/tmp/weak.smt2", []byte(buildScript(o.queryPC(weakPC(o.PC)), false)), 0o644)
+					}
+					if r := Solve(o.queryPC(weakPC(o.PC)), 3, 3); r.Status == "unsat" {
+						r.Solver += "+weak-pc"
+						o.Res = r
+						continue
 					}
 				}
 				o.Res = Solve(o.query(), q, t)
